@@ -35,7 +35,7 @@ func genParseStreams(c *Ctx, add func(stream string, doc []byte), scale int) {
 
 func checkC01(c *Ctx) {
 	r := c.Rng
-	c.Ev.Coverage.Rule = "accept/reject of Parse in 4 configurations (AVX2/AVX-512 x copy/no-copy) vs the Coq-extracted model and vs the Coq-extracted RFC 8259 recogniser spec_parse (only in-claim inputs compared against the spec). Streams: G1 grammar-directed valid documents with random JSON white space; G2 byte substitution/insertion/deletion/truncation at token boundaries; G3 exhaustive number lexemes over {0,1,9,-,+,.,e,E} up to length 5 (6 thorough) as array element and object value; G4 each atom with every byte in every position and as follower; G5 escapes and raw bytes in strings; G6 exhaustive token sequences over [ ] { } , : \"k\" 1 true up to length 5 (6 thorough); G7 positional sweep over block (64 B), index-buffer (1408 entries) and sync/async (8 KiB) boundaries; G8 documents above 8 KiB with a missing/extra bracket only; G9 a full index buffer ending on a carried index followed by a structural-free tail. non-trivial = compared against model or in-claim spec verdict; distinct = by input bytes"
+	c.Ev.Coverage.Rule = "accept/reject of Parse in 4 configurations (AVX2/AVX-512 x copy/no-copy) vs the Coq-extracted model and vs the Coq-extracted RFC 8259 recogniser spec_parse (only in-claim inputs compared against the spec). Streams: G1 grammar-directed valid documents with random JSON white space; G2 byte substitution/insertion/deletion/truncation at token boundaries; G3 exhaustive number lexemes over {0,1,9,-,+,.,e,E} up to length 5 (6 thorough) as array element and object value; G4 each atom with every byte in every position and as follower; G5 escapes and raw bytes in strings; G6 exhaustive token sequences over [ ] { } , : \"k\" 1 true up to length 5 (6 thorough); G7 positional sweep over block (64 B), index-buffer (1408 entries) and sync/async (8 KiB) boundaries; G8 documents above 8 KiB with a missing/extra bracket only; G9 a full index buffer ending on a carried index followed by a structural-free tail; G10 a raw control character inside a string of the first / a middle index buffer of a multi-buffer message. non-trivial = compared against model or in-claim spec verdict; distinct = by input bytes"
 	flags := ChkVerdict | ChkModel | ChkKernels | ChkCopyModes | ChkNoPanic
 	var batch []PCase
 	flush := func() {
@@ -174,6 +174,13 @@ func checkC01(c *Ctx) {
 	// G9 a full index buffer ending on a non-markup index, then a structural-free tail
 	for _, d := range denseThenTail(r) {
 		add("G9-dense-then-tail", d)
+	}
+	// G10 a raw control character in a string of the first / a middle index buffer
+	{
+		es, _ := earlyErrorDocs()
+		for _, d := range es {
+			add("G10-control-char-in-early-buffer", d)
+		}
 	}
 	// edges: white space variants, empty, scalars at the root
 	for _, s := range []string{"", " ", "\n", "1", `"a"`, "true", "null", "[]", "{}", " [] ", "\t{}\r\n", "[] []", "{}{}", "[]]", "[[]", "{", "}", "[", "]", ",", ":",
